@@ -81,3 +81,7 @@ Proof.
     + intros ->. discriminate.
     + apply ascii_utf8. eapply forallb_impl; [|exact Hc]. intros c Hx. unfold crockford_char in Hx. range_lt.
 Qed.
+
+(** Copy keeps the value and drops the context, whatever was set *)
+Theorem copy_drops_context mc c : fst (copy_c (set_context mc c)) = fst mc /\ snd (copy_c (set_context mc c)) = 0.
+Proof. split; reflexivity. Qed.
